@@ -9,6 +9,7 @@
 import Hagall.Spec.Monitors
 import Hagall.Model.Latency
 import Hagall.Model.Auth
+import Hagall.Model.GridReplay
 open Hagall Hagall.Wire
 
 structure Block where
@@ -261,5 +262,6 @@ partial def loop (stdin : IO.FS.Stream) (h : Option Hist) (b : Block) : IO Unit 
     loop stdin h b
   | _ => loop stdin h b
 
-def main : IO Unit := do
-  loop (← IO.getStdin) none {}
+def main (args : List String) : IO Unit := do
+  if args == ["grid"] then Hagall.Grid.gridLoop (← IO.getStdin) {}
+  else loop (← IO.getStdin) none {}
